@@ -132,12 +132,51 @@ def o_registry(rec: Recorder, case, soft=False):
         rec.fail(f"C17/registry-listing/{n}", "name missing from list_crypt_handlers()/dir(passlib.hash)", "registry", case, None, None, soft=soft)
 
 
-ORACLES = {"attribution": o_attr, "registry": o_registry}
+@oracle(PROPERTY, "import_order")
+def o_import_order(rec, case, soft=False):
+    t_import_order(rec, 0, "quick")
 
 
-def _plain_secret_ok(ctx, scheme, secret):
-    """a plaintext 'hash' IS the password: only passwords no other scheme of the context claims are meaningful"""
-    return ctx.identify(secret) == scheme
+ORACLES = {"attribution": o_attr, "registry": o_registry, "import_order": o_import_order}
+
+
+#: passwords shaped like the things other schemes key on (disabled markers, RFC 2307 braces, crypt prefixes)
+HOSTILE_PLAIN = ["!", "*", "!x", "*LK*secret", "!!", "{50%} off", "{ }", "{!}x", "{my secret} pw", "{}", "{abc", "abc}", "{pw", "$notahash", "_", "a:b", "#hash", " lead", "{SHA", "{a b}c"]
+
+
+def plain_claims(scheme, text):
+    """documented acceptance of the catch-all schemes, written from their docs (None: the docs leave it open)"""
+    import re
+
+    if scheme == "plaintext":
+        return text != ""
+    if scheme == "roundup_plaintext":
+        return text.startswith("{plaintext}")
+    if scheme == "ldap_plaintext":  # "identifies a hash only if it does NOT begin with the {XXX} identifier prefix used by RFC 2307 passwords"
+        if not text:
+            return False
+        m = re.match(r"^\{([^}]*)\}", text)
+        if m is None:
+            return True
+        body = m.group(1)
+        if re.fullmatch(r"[A-Za-z0-9_]+", body):
+            return False
+        if body == "" or re.search(r"[^A-Za-z0-9_./-]", body):
+            return True  # cannot be an RFC 2307 scheme identifier
+        return None
+    raise KeyError(scheme)
+
+
+def _plain_secret_ok(ctx, scheme, text):
+    """a plaintext 'hash' IS the password: it is a hash of `scheme` in this context only when no scheme listed before it claims the text.
+    The catch-all schemes are judged by their documented acceptance (plain_claims), the others by their own unconfigured identify()."""
+    for s in ctx.schemes():
+        c = plain_claims(s, text) if s in ("plaintext", "ldap_plaintext", "roundup_plaintext") else table.handler(s).identify(text)
+        if c is None:
+            return False
+        if c:
+            return s == scheme
+    return False
 
 
 def t_context(rec, seed, tier, cid):
@@ -165,7 +204,7 @@ def t_context(rec, seed, tier, cid):
             if "bcrypt" in scheme:
                 settings["rounds"] = 4
             kw = {k: v for k, v in draw(S.contexts(scheme)).items() if k != "encoding"}
-            secret = draw(st.sampled_from(["pässword", "pw", "correct horse", "x" * 30, "Tr0ub4dor&3"]))
+            secret = draw(st.sampled_from(["pässword", "pw", "correct horse", "x" * 30, "Tr0ub4dor&3"] + (HOSTILE_PLAIN * 2 if f.plaintext and not f.salt else [])))
             if f.maxlen:
                 secret = secret[: f.maxlen // 2]
             if f.secret == "lm":
@@ -200,7 +239,62 @@ def t_registry(rec, seed, tier):
     rec.subrecord("registry", exhaustive=True, names=len(names))
 
 
+IMPORT_PROBE = """
+import sys, json, importlib
+sys.path.insert(0, sys.argv[1])
+for m in sys.argv[2].split(","):
+    importlib.import_module("passlib." + m)
+import passlib.apps, passlib.hosts, passlib.apache
+from passlib import registry
+out = {}
+for mod in (passlib.apps, passlib.hosts):
+    for n in mod.__all__:
+        c = getattr(mod, n, None)
+        if c is not None and hasattr(c, "schemes"):
+            out[mod.__name__.split(".")[1] + ":" + n] = list(c.schemes())
+out["apache:htpasswd_context"] = list(passlib.apache.htpasswd_context.schemes())
+out["registry:os_crypt_schemes"] = list(registry.get_supported_os_crypt_schemes())
+print(json.dumps(out))
+"""
+
+
+def t_import_order(rec, seed, tier):
+    """a shipped context is the same object whatever module of the package was imported first (fresh interpreter per order)"""
+    import itertools
+    import json
+    import subprocess
+    import sys
+
+    from ..common import REPO
+
+    results = {}
+    for order in itertools.permutations(["apps", "hosts", "apache"]):
+        r = subprocess.run([sys.executable, "-c", IMPORT_PROBE, REPO, ",".join(order)], capture_output=True, text=True, timeout=120)
+        if r.returncode != 0:
+            rec.fail(f"C17/import-order/raises/{'-'.join(order)}", "importing the shipped contexts in this order raises", "import_order", {"order": list(order)}, r.stderr[-400:], None, soft=True)
+            continue
+        results[order] = json.loads(r.stdout.strip().splitlines()[-1])
+        rec.ev()
+    ref_order = ("apps", "hosts", "apache")
+    ref = results.get(ref_order)
+    for order, got in results.items():
+        for cid in sorted(got):
+            rec.nt("import-order", order, cid)
+            if ref is not None and got[cid] != ref.get(cid):
+                rec.fail(f"C17/import-order/{cid}", f"{cid} lists different schemes when the package modules are imported in the order {order} than in {ref_order}", "import_order",
+                         {"order": list(order), "context": cid}, got[cid], ref.get(cid), soft=True)
+    from passlib.utils import unix_crypt_schemes
+
+    for order, got in results.items():
+        extra = [x for x in got["registry:os_crypt_schemes"] if x not in unix_crypt_schemes]
+        if extra:
+            rec.fail("C17/os-crypt-schemes-not-crypt", "get_supported_os_crypt_schemes() reports a name that is not a crypt() scheme", "import_order", {"order": list(order)}, extra, [], soft=True)
+    rec.sample("import-order", {"orders": [list(o) for o in results], "contexts": len(ref or {})})
+    rec.subrecord("import-orders", exhaustive=True, orders=len(results))
+
+
 def tasks(tier):
     ts = [{"name": f"ctx-{cid}", "fn": "t_context", "kw": {"cid": cid}} for cid in all_context_ids()]
     ts.append({"name": "registry", "fn": "t_registry"})
+    ts.append({"name": "import-order", "fn": "t_import_order"})
     return ts
